@@ -17,15 +17,16 @@ import (
 
 // Req / Resp / Key are the request-scoped objects injected by every storm request.
 type Req struct {
-	Id     int64
-	Fail   bool
-	Boom   bool
-	Zero   int64
-	HoldUs int64
-	List   []int64          // Id, Id+1, Id+2
-	Fail2  bool             // a member of q4's conc block fails
-	Dirty  bool             // rule qd assigns a local and then faults
-	Tab    map[string]int64 // {"k": Id}: read with a string-literal key and with a variable key
+	Id       int64
+	Fail     bool
+	Boom     bool
+	Zero     int64
+	HoldUs   int64
+	List     []int64          // Id, Id+1, Id+2
+	Fail2    bool             // a member of q4's conc block fails
+	Dirty    bool             // rule qd assigns a local and then faults
+	CallData bool             // rule qx calls the injected object Req as if it were a function (a rule error like any other)
+	Tab      map[string]int64 // {"k": Id}: read with a string-literal key and with a variable key
 }
 
 type Resp struct {
@@ -145,9 +146,15 @@ rule "ql" salience 0
 begin
   Resp.Seen = leak
 end
+rule "qx" salience -1
+begin
+  if Req.CallData {
+    Req()
+  }
+end
 `
 
-var stormNames = []string{"q1", "q2", "q3", "q4", "p1", "p2", "p3", "p4", "qd", "ql"}
+var stormNames = []string{"q1", "q2", "q3", "q4", "p1", "p2", "p3", "p4", "qd", "ql", "qx"}
 
 // Gate counts rule bodies that are inside it and can hold them.
 type Gate struct {
@@ -450,6 +457,7 @@ func (s *Storm) fire(r *rand.Rand, c trace.Call, fail, boom bool, holdUs int64, 
 	if s.faults && !fail && !boom {
 		req.Fail2 = r.Intn(7) == 0
 		req.Dirty = r.Intn(7) == 0
+		req.CallData = r.Intn(10) == 0
 	}
 	resp := &Resp{Token: tokenOf(id)}
 	d := &done{id: id, call: c, resp: resp, injected: map[string]bool{}, healthy: !fail && !boom && !req.Fail2, fail2: req.Fail2}
